@@ -24,6 +24,7 @@ import threading
 import hpfeeds.blocking.queue as Q
 
 _tls = threading.local()
+ORIG_SELECT = select.select
 
 
 class Worker:
@@ -285,6 +286,152 @@ def explore(max_runs=400):
                                     deadlock=out['deadlock']))
                 if out['deadlock']:
                     s.unblock()
+            finally:
+                s.close()
+    return results
+
+
+# ------------------------------------------------------------------------------------------------
+# two producer threads calling Reactor.write() with whole frames: every interleaving of their outbox operations
+# ------------------------------------------------------------------------------------------------
+class WSched:
+    """two threads each call reactor.write(frame); they stop in front of every put on the reactor's outbox and the
+    controller releases one at a time; afterwards the reactor is stepped by hand over a socket that accepts everything"""
+
+    def __init__(self, frames):
+        import hpfeeds.blocking.reactor as R
+        self.R = R
+
+        class Sock:
+            def __init__(s):
+                s.sent = bytearray()
+
+            def setblocking(s, f):
+                pass
+
+            def setsockopt(s, *a):
+                pass
+
+            def close(s):
+                pass
+
+            def recv(s, n):
+                raise socket.error(11, 'would block')
+
+            def send(s, data):
+                s.sent.extend(bytes(data))
+                return len(data)
+
+        class Proto:
+            def connection_made(s):
+                pass
+
+            def connection_lost(s, reason):
+                pass
+
+            def data_received(s, d):
+                pass
+        self.sock = Sock()
+        self.r = R.Reactor(Proto, lambda: self.sock)
+        self.r._connect()
+        self.q = self.r._outbox
+        self.arrived = threading.Semaphore(0)
+        self.trace = []
+        self.frames = frames
+        self.workers = []
+        for i, f in enumerate(frames):
+            w = Worker(self, 'W%d' % i, [])
+            w.frame = f
+            w.main = (lambda w=w: self._main(w))
+            w.thread = threading.Thread(target=w.main, daemon=True)
+            self.workers.append(w)
+
+    def _main(self, w):
+        _tls.worker = w
+        try:
+            self.r.write(w.frame)
+        except BaseException as e:  # noqa
+            w.error = '%s: %s' % (type(e).__name__, e)
+        finally:
+            _tls.worker = None
+            w.finished = True
+            self.arrived.release()
+
+    def run(self, prefix):
+        decisions = []
+        with Patched():
+            for w in self.workers:
+                w.thread.start()
+            for _ in self.workers:
+                self.arrived.acquire()
+            k = 0
+            while True:
+                parked = [w for w in self.workers if not w.finished and w.pending is not None]
+                if not parked:
+                    break
+                names = [w.name for w in parked]
+                pick = prefix[k] if k < len(prefix) and prefix[k] in names else names[0]
+                decisions.append((pick, names))
+                k += 1
+                w = next(x for x in parked if x.name == pick)
+                w.go.release()
+                self.arrived.acquire()
+        # drain: the reactor thread's loop, by hand
+        old = self.R.select.select
+
+        def fake(rl, wl, xl, timeout=None):
+            rr = [x for x in rl if x is self.r._outbox and ORIG_SELECT([x], [], [], 0)[0]]
+            return rr, [x for x in wl if x is self.sock], []
+        self.R.select.select = fake
+        try:
+            for _ in range(200):
+                if not self.r._buffer and self.r._outbox.qsize() == 0:
+                    break
+                self.r._select()
+        finally:
+            self.R.select.select = old
+        return decisions
+
+    def close(self):
+        for sk in (self.q._putsocket, self.q._getsocket):
+            try:
+                sk.close()
+            except Exception:
+                pass
+
+
+def explore_writes(max_runs=200):
+    """-> list of dict(scenario, schedule, failure): frames handed to Reactor.write() from two threads reach the socket whole,
+    each exactly once, never interleaved (in either order)"""
+    results = []
+    for name, sizes in (('two small frames', (40, 60)), ('a small and a 20 KiB frame', (50, 20000)), ('two 40 KiB frames', (40000, 41000))):
+        frames = [bytes([65 + i]) * n for i, n in enumerate(sizes)]
+        todo, seen, runs = [[]], set(), 0
+        while todo and runs < max_runs:
+            prefix = todo.pop()
+            s = WSched(frames)
+            try:
+                dec = s.run(prefix)
+                runs += 1
+                sched = [p for p, _ in dec]
+                if tuple(sched) in seen:
+                    continue
+                seen.add(tuple(sched))
+                for i, (pick, names) in enumerate(dec):
+                    if i >= len(prefix):
+                        for alt in names:
+                            if alt != pick:
+                                todo.append(sched[:i] + [alt])
+                got = bytes(s.sock.sent)
+                fail = None
+                errs = [w.error for w in s.workers if w.error]
+                if errs:
+                    fail = 'Reactor.write() raised %s' % errs[0]
+                elif got not in (frames[0] + frames[1], frames[1] + frames[0]):
+                    k = next((i for i in range(min(len(got), len(frames[0]))) if got[i] != got[0]), len(got))
+                    fail = ('two threads wrote frames of %d and %d bytes; the socket got %d bytes that are neither A+B nor B+A (the first '
+                            'frame is interrupted after %d bytes): frames interleaved, truncated or repeated' % (sizes[0], sizes[1], len(got), k))
+                results.append(dict(scenario='writers: ' + name, schedule=sched, failure=fail))
             finally:
                 s.close()
     return results
